@@ -3,7 +3,7 @@
 # flake8: noqa
 
 
-# ---- B100  malVisitor.visitMal  (C04)  [maltoolbox/language/compiler/mal_visitor.py]
+# ---- B100  malVisitor.visitMal  (C04, C17)  [maltoolbox/language/compiler/mal_visitor.py]
 def malVisitor__visitMal(self, ctx):
     langspec = {'formatVersion': '1.0.0', 'defines': {}, 'categories': [], 'assets': [], 'associations': []}
     for declaration in (d.getChild(0) for d in ctx.declaration()):
@@ -34,7 +34,7 @@ def malVisitor__visitMal(self, ctx):
     return langspec
 
 
-# ---- B101  malVisitor.visitInclude  (C04)  [maltoolbox/language/compiler/mal_visitor.py]
+# ---- B101  malVisitor.visitInclude  (C04, C17)  [maltoolbox/language/compiler/mal_visitor.py]
 def malVisitor__visitInclude(self, ctx):
     return ('include', ctx.STRING().getText().strip('"'))
 
@@ -604,6 +604,29 @@ def LanguageGraph___to_dict(self):
     return serialized_graph
 
 
+# ---- B218  LanguageGraph.load_from_file  (C15)  [maltoolbox/language/languagegraph.py]
+def LanguageGraph__load_from_file(cls, filename):
+    lang_graph = None
+    if filename.endswith('.mal'):
+        lang_graph = cls.from_mal_spec(filename)
+    elif filename.endswith('.mar'):
+        lang_graph = cls.from_mar_archive(filename)
+    elif filename.endswith(('yaml', 'yml')):
+        lang_graph = cls._from_dict(load_dict_from_yaml_file(filename))
+    elif filename.endswith('json'):
+        lang_graph = cls._from_dict(load_dict_from_json_file(filename))
+    if lang_graph:
+        return lang_graph
+    raise TypeError('Unknown file extension, expected json/mal/mar/yml/yaml')
+
+
+# ---- B219  LanguageGraphAsset.get_all_common_superassets  (C15)  [maltoolbox/language/languagegraph.py]
+def LanguageGraphAsset__get_all_common_superassets(self, other):
+    self_superassets = set((asset.name for asset in self.get_all_superassets()))
+    other_superassets = set((asset.name for asset in other.get_all_superassets()))
+    return self_superassets.intersection(other_superassets)
+
+
 # ---- B300  _process_step_expression  (C01, C16)  [maltoolbox/attackgraph/attackgraph.py]
 def _process_step_expression(lang_graph, model, target_assets, step_expression):
     if logger.isEnabledFor(logging.DEBUG):
@@ -911,6 +934,25 @@ def Attacker__to_dict(self):
     return attacker_dict
 
 
+# ---- B311  AttackGraph.load_from_file  (C10)  [maltoolbox/attackgraph/attackgraph.py]
+def AttackGraph__load_from_file(cls, filename, model=None):
+    if model is not None:
+        pass
+    serialized_attack_graph = None
+    if filename.endswith(('.yml', '.yaml')):
+        serialized_attack_graph = load_dict_from_yaml_file(filename)
+    elif filename.endswith('.json'):
+        serialized_attack_graph = load_dict_from_json_file(filename)
+    else:
+        raise ValueError('Unknown file extension, expected json/yml/yaml')
+    return cls._from_dict(serialized_attack_graph, model=model)
+
+
+# ---- B312  AttackGraph.save_to_file  (C10)  [maltoolbox/attackgraph/attackgraph.py]
+def AttackGraph__save_to_file(self, filename):
+    return save_dict_to_file(filename, self._to_dict())
+
+
 # ---- B400  Model._to_dict  (C07)  [maltoolbox/model.py]
 def Model___to_dict(self):
     contents: dict[str, Any] = {'metadata': {}, 'assets': {}, 'associations': [], 'attackers': {}}
@@ -1003,6 +1045,33 @@ def Model__get_asset_defenses(self, asset, include_defaults=False):
             continue
         defenses[key] = float(value)
     return defenses
+
+
+# ---- B406  Model.load_from_file  (C07)  [maltoolbox/model.py]
+def Model__load_from_file(cls, filename, lang_classes_factory):
+    serialized_model = None
+    if filename.endswith(('.yml', '.yaml')):
+        serialized_model = load_dict_from_yaml_file(filename)
+    elif filename.endswith('.json'):
+        serialized_model = load_dict_from_json_file(filename)
+    else:
+        raise ValueError('Unknown file extension, expected json/yml/yaml')
+    return cls._from_dict(serialized_model, lang_classes_factory)
+
+
+# ---- B407  Model.save_to_file  (C07)  [maltoolbox/model.py]
+def Model__save_to_file(self, filename):
+    return save_dict_to_file(filename, self._to_dict())
+
+
+# ---- B408  save_dict_to_file  (C07, C10)  [maltoolbox/file_utils.py]
+def save_dict_to_file(filename, dictionary):
+    if filename.endswith(('.yml', '.yaml')):
+        save_dict_to_yaml_file(filename, dictionary)
+    elif filename.endswith('.json'):
+        save_dict_to_json_file(filename, dictionary)
+    else:
+        raise ValueError('Unknown file extension, expected json/yml/yaml')
 
 
 # ---- B410  load_model_from_version_0_0_39._process_model  (C18)  [maltoolbox/translators/updater.py]
